@@ -150,7 +150,8 @@ def analyse(o):
 # the path by which an expansion names std's formatting traits is not part of the property
 FMT_TRAITS = "Display|Debug|Binary|Octal|LowerHex|UpperHex|LowerExp|UpperExp|Pointer"
 PRED_RE = re.compile(r"(\w+) : (?::: )?(?:\w+ :: )*(%s)\b" % FMT_TRAITS)
-DELEG_RE = re.compile(r"\b(%s) :: fmt \(" % FMT_TRAITS)
+# `Trait::fmt(x, f)`, `path::Trait::fmt(..)` or the fully qualified `<_ as path::Trait>::fmt(..)`
+DELEG_RE = re.compile(r"\b(%s) (?:> )?:: fmt \(" % FMT_TRAITS)
 
 
 def forwards_literal(t, tok):
